@@ -3,11 +3,11 @@ add("C01", "H", "explicit-state BFS over API histories of the real Traph (bounde
     "DESIGN.md 6/C01")
 
 add("C03", "H", "explicit-state BFS over API histories of the real Traph (bounded depth, exhaustive), lock-step reference model",
-    "Every history up to the stated depth over all link/crawl batch shapes (repeated, self, both directions, source-and-target, empty target lists, long stems) interleaved with page/webentity/rule writes; in every state the links of every page under all 8 switch settings, the degrees, both link enumerations, the global count and the raw link store are compared with a Counter of submissions.",
+    "Every history up to the stated depth over all link/crawl batch shapes (repeated, self, both directions, source-and-target, empty target lists, long stems) interleaved with page/webentity/rule writes; in every state the links of every page under all 8 switch settings, the degrees, both link enumerations, the global count and the raw link store are compared with a Counter of submissions. Also: every link batch of <=3 links and every crawl batch of <=2x2 over a few pages, size letters (300 targets, 600 citations, 300 repetitions), arguments as str / one-shot iterators / aliased keys, a lifecycle space without merging, and the two enumerations advanced in turns with a query in between.",
     "DESIGN.md 6/C03")
 
 add("C02", "H", "explicit-state BFS over insertion histories of the real Traph (bounded depth, exhaustive) + independent raw decoder of the trie file",
-    "Every insertion history up to the stated depth over multi-block stems (lengths around every 74-byte multiple, low/high byte values, two levels, all sibling insertion orders) and short stems; in every state top-down lookup, bottom-up reconstruction and full traversal are compared on every named stem-prefix and on near-miss probes, and an independent decoder checks the ternary-search-tree invariants on the raw bytes.",
+    "Every insertion history up to the stated depth over multi-block stems (lengths around every 74-byte multiple, low/high byte values, two levels, all sibling insertion orders) and short stems; in every state top-down lookup, bottom-up reconstruction and full traversal are compared on every named stem-prefix and on near-miss probes, and an independent decoder checks the ternary-search-tree invariants on the raw bytes. Also: every one of the 255 non-separator byte values (short and inside a multi-block stem), stems up to 20 000 bytes, every stem-length shape of up to three stems inserted in one go, a lifecycle space (observe / clear / reopen, every sequence, no merging) and the second copy of the top-down search.",
     "DESIGN.md 6/C02")
 
 add("C19", "H", "explicit-state BFS over API histories of the real Traph (bounded depth, exhaustive), block-count formula + independent raw decoder",
@@ -15,7 +15,7 @@ add("C19", "H", "explicit-state BFS over API histories of the real Traph (bounde
     "DESIGN.md 6/C19")
 
 add("C04", "H", "explicit-state BFS over API histories of the real Traph (bounded depth, exhaustive), lock-step reference model",
-    "Every history up to the stated depth over creations, deletions (full, partial, wrong id), prefix additions, removals and moves (no / right / wrong id) on nested and sibling prefixes, plus automatic creations; in every state the attached-prefix map and the resolution of 22 probe LRUs (stored, partially stored, absent, diverging left/right) are compared with longest-prefix match on a dict, and every refusal is checked on every transition.",
+    "Every history up to the stated depth over creations, deletions (full, partial, wrong id), prefix additions, removals and moves (no / right / wrong id) on nested and sibling prefixes, plus automatic creations; in every state the attached-prefix map and the resolution of 22 probe LRUs (stored, partially stored, absent, diverging left/right) are compared with longest-prefix match on a dict, and every refusal is checked on every transition. Also: single resolution queries as letters (the oracle re-issues the last one first), refused partial deletions, ids beyond 256 and caller-chosen ids, prefixes on multi-block stems, a latin-1 index driven with str arguments.",
     "DESIGN.md 6/C04")
 
 REL = "explicit-state BFS over API histories of the real Traph (bounded depth, exhaustive); relational oracle between independent query paths of the same state"
@@ -32,7 +32,7 @@ add("C13", "H", REL,
     "Every history up to the stated depth that inserts pages first (unmarked paths) and then attaches prefixes by every route (explicit creation, automatic creation, rule installation, prefix addition, move) in every order over C1 < A < Ax < Axy, Aw, S; in every state parents and children of every webentity are compared with the attached-prefix map.",
     "DESIGN.md 6/C13")
 add("C20", "H", REL,
-    "Every history up to the stated depth over link batches giving indegrees 0..3 with ties, self-links and repeated links, pages at depths 0..2 under several prefixes; in every state, for every webentity, k in {1,2,3,4,10} and depth limit in {None,0,1,2}, the answer is judged against the number of distinct sources taken from the page links (length, eligibility, order, values, nothing larger omitted). Known finding: unlinked pages are reported with indegree 1.",
+    "Every history up to the stated depth over link batches giving indegrees 0..3 with ties, self-links and repeated links, pages at depths 0..2 under several prefixes; in every state, for every webentity, k in {1,2,3,4,10} and depth limit in {None,0,1,2}, the answer is judged against the number of distinct sources taken from the page links (length, eligibility, order, values, nothing larger omitted). Known finding: unlinked pages are reported with indegree 1. Part B: most-linked queries interleaved with crawl batches and with other traversals (engine S); the interleaved answer (read-only combinations) and a fresh answer after completion are judged against the page links. Lifecycle space with 70-node lists around clear / reopen.",
     "DESIGN.md 6/C20")
 
 add("C06", "H", "explicit-state BFS over API histories of the real Traph in 9 rule configurations (bounded depth, exhaustive), lock-step reference ladder",
@@ -40,23 +40,23 @@ add("C06", "H", "explicit-state BFS over API histories of the real Traph in 9 ru
     "DESIGN.md 6/C06")
 TWIN = "explicit-state BFS over API histories of the real Traph (bounded depth, exhaustive) with a twin index run in lock-step"
 add("C11", "H", TWIN,
-    "Every history up to the stated depth with reopen and clear as ordinary letters (any position, any number of times); at a reopen: file sizes are whole blocks, bytes and the ~230-answer observation vector are identical before/after; after every later request, reports, bytes and observation vector equal those of a twin that was never closed; after clear they equal those of a freshly created index with the given rules, and keep doing so.",
+    "Every history up to the stated depth with reopen and clear as ordinary letters (any position, any number of times); at a reopen: file sizes are whole blocks, bytes and the ~230-answer observation vector are identical before/after; after every later request, reports, bytes and observation vector equal those of a twin that was never closed; after clear they equal those of a freshly created index with the given rules, and keep doing so. Also: every sequence (no merging) over a small alphabet, abandoned crawl batches, letter case across reopen, rule anchors handed over as str.",
     "DESIGN.md 6/C11")
 add("C12", "H", "explicit-state BFS over API histories of the real Traph (bounded depth, exhaustive), lock-step record of every id issued",
-    "Every history up to the stated depth over creations (one and several prefixes, refused), deletions, automatic creations, rule installations creating several webentities, reopen and clear; on every transition every reported id must be greater than every id reported since creation/clear, and every prefix the request attached must carry it.",
+    "Every history up to the stated depth over creations (one and several prefixes, refused), deletions, automatic creations, rule installations creating several webentities, reopen and clear; on every transition every reported id must be greater than every id reported since creation/clear, and every prefix the request attached must carry it. Also: every sequence (no merging) over creations, deletions, the two forms of clear, reopen and an abandoned batch.",
     "DESIGN.md 6/C12")
 add("C15", "H", TWIN,
     "Every history up to the stated depth (multi-block stems, constructor rules, overwrite flag on/off) runs on an in-memory and on a fresh on-disk index; per request the reports/exceptions, per state the bytes of both stores and the observation vector must be identical, and the blocks read through FileStorage.map() right after the request must equal the store's blocks.",
     "DESIGN.md 6/C15")
 
 add("C09", "H+P+E", "explicit-state BFS over API histories (engine H) x exhaustive enumeration of pagination chains, incl. every placement of <=2 (thorough 3) interleaved insertions replayed from scratch (engine P); exhaustive token text round trip",
-    "On every state of a bounded BFS, for every webentity, prefix order, page size and crawled-only setting the token chain is followed to the end and compared with the unpaginated page set, the prescribed order, the exact answer sizes and counts. On three base states every chain with up to 2 (3) page insertions placed at any token boundaries is executed on a fresh index: nothing may repeat, nothing that stayed in the webentity throughout may be skipped. Tokens round-trip for every (index<=5, path in {1,2,3}^<=8).",
+    "On every state of a bounded BFS, for every webentity, prefix order, page size and crawled-only setting the token chain is followed to the end and compared with the unpaginated page set, the prescribed order, the exact answer sizes and counts. On three base states every chain with up to 2 (3) page insertions placed at any token boundaries is executed on a fresh index: nothing may repeat, nothing that stayed in the webentity throughout may be skipped. Tokens round-trip for every (index<=5, path in {1,2,3}^<=8). Also: sibling stems sharing their first 74 bytes, 40 siblings in ascending order (40-step token paths), a 12-prefix webentity, token indexes 0..130.",
     "DESIGN.md 6/C09")
 add("C10", "H", "explicit-state BFS over API histories of the real Traph (bounded depth, exhaustive) x exhaustive enumeration of pagination chains on every state",
-    "On every state of a bounded BFS over link batches and prefix layouts (link-less pages between link-bearing ones, prefixes without link-bearing page, sources whose links all fail the switches), for every webentity, up to 6 prefix orders, source-page counts 1..3(4) and the three switch settings, the token chain is followed to the end: every token must resume, every non-final answer covers exactly the requested number of link-bearing sources, counts match, and the multiset union equals the unpaginated answer.",
+    "On every state of a bounded BFS over link batches and prefix layouts (link-less pages between link-bearing ones, prefixes without link-bearing page, sources whose links all fail the switches), for every webentity, up to 6 prefix orders, source-page counts 1..3(4) and the three switch settings, the token chain is followed to the end: every token must resume, every non-final answer covers exactly the requested number of link-bearing sources, counts match, and the multiset union equals the unpaginated answer. Also: three paginations with different switches advanced in turns, a 12-prefix webentity, every route that changes the prefix map between two paginations.",
     "DESIGN.md 6/C10")
 add("C14", "H", "explicit-state BFS over API histories of the real Traph (bounded depth, exhaustive) x the complete read-only API menu on every state",
-    "On every state of a bounded BFS (file and memory back-ends, roots R0-R4, multi-block stems) every call of the read-only menu (~600 calls per state: every public query, all switch settings, present/absent/diverging LRUs, known/unknown webentities, right/wrong/absent prefixes, pagination chains, partially drained iterators) is bracketed by a byte comparison of both stores.",
+    "On every state of a bounded BFS (file and memory back-ends, roots R0-R4, multi-block stems) every call of the read-only menu (~600 calls per state: every public query, all switch settings, present/absent/diverging LRUs, known/unknown webentities, right/wrong/absent prefixes, pagination chains, partially drained iterators) is bracketed by a byte comparison of both stores. Also: states reached by reopening without re-supplying the rules, and (part F) the read-only menu on every reopened cut of torn write histories with multi-block stems.",
     "DESIGN.md 6/C14")
 
 add("C17", "E", "exhaustive enumeration of a bounded LRU grammar + closure of the variation graph (states = LRUs, transitions = variation edges); one fresh real index per class member",
